@@ -10,7 +10,7 @@
    then given).
 
    DemoWriter state that matters between calls: the inner writer's prev_tick, last_tick,
-   last_keyframe, the last written snapshot, the builder recycled from the one before, and
+   last_keyframe, the last written snapshot, the builder recycled from (a copy of) it, and
    `buf` (an ArrayVec that is only cleared on the success paths: after a capacity error it keeps
    the fitting prefix, see buffer/src/impls/arrayvec.rs Drop). *)
 From LibTw2 Require Export Base.Res Model.Varint Model.Demo.
@@ -143,7 +143,9 @@ Definition write_snap (sz : Snap.osize) (w : hwriter) (tick : Z) (items : list h
           if negb assert_ok then (taken buf', tb, Panic Snap.site_write_size) else
           match write_chunk_impl (if is_keyframe then KSnapshot else KSnapshotDelta) buf' with
           | Ok cb =>
-            match Snap.snap_recycle old_snap with
+            (* since the repair of the second C15 defect: `new_snap.clone().recycle()`; before it was
+               `old_snap.recycle()`, which numbered extended types from the snapshot before the last *)
+            match Snap.snap_recycle new_snap with
             | Ok nb =>
               ({| hw_prev := prev'; hw_last_tick := tick;
                   hw_last_keyframe := if is_keyframe then Some tick else hw_last_keyframe w;
@@ -236,46 +238,55 @@ Definition snap_chunk (sn : Snap.snap) : res hrerr (list hitem) :=
   | Err e => Err e | Panic s => Panic s | OutOfFuel => OutOfFuel
   end.
 
+(* the part of DemoReader::next_chunk behind raw.read_chunk: what is made of a raw chunk, given
+   the last snapshot; returns the chunk and the snapshot kept for the next delta *)
+Definition decode_chunk (sz : Snap.osize) (last : Snap.snap) (c : chunk) : hwres (hchunk * Snap.snap) :=
+  match c with
+  | CUnknown => (Ok (HCInvalid, last), [])
+  | CTick t _ => (Ok (HCTick t, last), [])
+  | CMessage m => (Ok (HCMessage m, last), [])
+  | CSnapshot d =>
+    match Snap.snap_read_bytes d with
+    | (Ok sn, sw) =>
+      let ws := map HWSnapshot sw in
+      match snap_chunk sn with
+      | Ok l => (Ok (HCSnapshot l, sn), ws)
+      | Err e => (Err e, ws) | Panic s => (Panic s, ws) | OutOfFuel => (OutOfFuel, ws)
+      end
+    | (Err e, sw) => (Err (HESnap e), map HWSnapshot sw)
+    | (Panic s, sw) => (Panic s, map HWSnapshot sw)
+    | (OutOfFuel, sw) => (OutOfFuel, map HWSnapshot sw)
+    end
+  | CDelta d =>
+    match Snap.delta_read_bytes sz d with
+    | (Ok dl, dw) =>
+      match Snap.snap_read_with_delta last dl with
+      | (Ok sn, sw) =>
+        let ws := map HWSnapshot dw ++ map HWSnapshot sw in
+        match snap_chunk sn with
+        | Ok l => (Ok (HCSnapshot l, sn), ws)
+        | Err e => (Err e, ws) | Panic s => (Panic s, ws) | OutOfFuel => (OutOfFuel, ws)
+        end
+      | (Err e, sw) => (Err (HESnap e), map HWSnapshot dw ++ map HWSnapshot sw)
+      | (Panic s, sw) => (Panic s, map HWSnapshot dw ++ map HWSnapshot sw)
+      | (OutOfFuel, sw) => (OutOfFuel, map HWSnapshot dw ++ map HWSnapshot sw)
+      end
+    | (Err e, dw) => (Err (HESnap e), map HWSnapshot dw)
+    | (Panic s, dw) => (Panic s, map HWSnapshot dw)
+    | (OutOfFuel, dw) => (OutOfFuel, map HWSnapshot dw)
+    end
+  end.
+
 (* DemoReader::next_chunk *)
 Definition next_chunk (sz : Snap.osize) (v : version) (r : hreader) : hwres (option (hchunk * hreader)) :=
   match read_chunk v (hr_raw r) with
   | (Ok None, ws) => (Ok None, map HWDemo ws)
   | (Ok (Some (c, st)), ws) =>
-    let ws := map HWDemo ws in
-    match c with
-    | CUnknown => (Ok (Some (HCInvalid, {| hr_raw := st; hr_snap := hr_snap r |})), ws)
-    | CTick t _ => (Ok (Some (HCTick t, {| hr_raw := st; hr_snap := hr_snap r |})), ws)
-    | CMessage m => (Ok (Some (HCMessage m, {| hr_raw := st; hr_snap := hr_snap r |})), ws)
-    | CSnapshot d =>
-      match Snap.snap_read_bytes d with
-      | (Ok sn, sw) =>
-        let ws := ws ++ map HWSnapshot sw in
-        match snap_chunk sn with
-        | Ok l => (Ok (Some (HCSnapshot l, {| hr_raw := st; hr_snap := sn |})), ws)
-        | Err e => (Err e, ws) | Panic s => (Panic s, ws) | OutOfFuel => (OutOfFuel, ws)
-        end
-      | (Err e, sw) => (Err (HESnap e), ws ++ map HWSnapshot sw)
-      | (Panic s, sw) => (Panic s, ws ++ map HWSnapshot sw)
-      | (OutOfFuel, sw) => (OutOfFuel, ws ++ map HWSnapshot sw)
-      end
-    | CDelta d =>
-      match Snap.delta_read_bytes sz d with
-      | (Ok dl, dw) =>
-        match Snap.snap_read_with_delta (hr_snap r) dl with
-        | (Ok sn, sw) =>
-          let ws := ws ++ map HWSnapshot dw ++ map HWSnapshot sw in
-          match snap_chunk sn with
-          | Ok l => (Ok (Some (HCSnapshot l, {| hr_raw := st; hr_snap := sn |})), ws)
-          | Err e => (Err e, ws) | Panic s => (Panic s, ws) | OutOfFuel => (OutOfFuel, ws)
-          end
-        | (Err e, sw) => (Err (HESnap e), ws ++ map HWSnapshot dw ++ map HWSnapshot sw)
-        | (Panic s, sw) => (Panic s, ws ++ map HWSnapshot dw ++ map HWSnapshot sw)
-        | (OutOfFuel, sw) => (OutOfFuel, ws ++ map HWSnapshot dw ++ map HWSnapshot sw)
-        end
-      | (Err e, dw) => (Err (HESnap e), ws ++ map HWSnapshot dw)
-      | (Panic s, dw) => (Panic s, ws ++ map HWSnapshot dw)
-      | (OutOfFuel, dw) => (OutOfFuel, ws ++ map HWSnapshot dw)
-      end
+    match decode_chunk sz (hr_snap r) c with
+    | (Ok (hc, sn), ws') => (Ok (Some (hc, {| hr_raw := st; hr_snap := sn |})), map HWDemo ws ++ ws')
+    | (Err e, ws') => (Err e, map HWDemo ws ++ ws')
+    | (Panic s, ws') => (Panic s, map HWDemo ws ++ ws')
+    | (OutOfFuel, ws') => (OutOfFuel, map HWDemo ws ++ ws')
     end
   | (Err e, ws) => (Err (HEInner e), map HWDemo ws)
   | (Panic s, ws) => (Panic s, map HWDemo ws)
